@@ -273,7 +273,7 @@ func systems(c *core.Ctx, which string) []sys {
 func run(c *core.Ctx, which string) {
 	switch which {
 	case "C28":
-		c.Rule = "every history of <=D reflection operations (Set zero/non-zero/-0, Clear, Mutable, Set(new), NewField, list Append/Set/Truncate/AppendMutable/NewElement, map Set/Clear/Mutable/NewValue, extension fields through their type descriptors, Get/SetUnknown) over one representative field per shape class is applied in lock-step to a real message (open, hybrid, opaque, dynamicpb) and to the abstract message model; after EVERY step: canonical content, Has and Get of every tracked field (defaults and read-only invalid empty composites when unpopulated), WhichOneof and member count of every oneof, the exact set visited by Range (once each) and GetUnknown must agree. No merging of states (hidden state such as stale pointers is what is being tested): a state is a history"
+		c.Rule = "every history of <=D reflection operations (Set zero/non-zero/-0, Clear, Mutable, Set(new), Set of the invalid read-only view, proto.SetExtension with a typed nil, NewField, list Append/Set/Truncate/AppendMutable/NewElement, map Set/Clear/Mutable/NewValue, extension fields through their type descriptors, Get/SetUnknown) over one representative field per shape class is applied in lock-step to a real message (open, hybrid, opaque, dynamicpb) and to the abstract message model; after EVERY step: canonical content, Has and Get of every tracked field (defaults and read-only invalid empty composites when unpopulated), WhichOneof and member count of every oneof, the exact set visited by Range (once each) and GetUnknown must agree. No merging of states (hidden state such as stale pointers is what is being tested): a state is a history"
 	case "C11":
 		c.Rule = "histories of <=D Set(zero)/Set(non-zero)/Set(-0)/Clear/Mutable/list/map operations over one representative field per presence class (proto2 optional, proto3 implicit, proto3 optional, editions EXPLICIT/IMPLICIT/LEGACY_REQUIRED, repeated, map, oneof member) on real messages vs the model; after every step Has must equal the model's presence, and the message is round-tripped through the binary, JSON and text codecs: presence and content must survive, and no record of an unpopulated known field (e.g. an implicit-presence zero) may appear on the wire"
 	case "C12":
